@@ -54,7 +54,11 @@ func getSwapInSenderStates() States {
 				Event_OnTimeout:                        State_SendCancel,
 				Event_SwapInSender_OnAgreementReceived: State_SwapInSender_BroadcastOpeningTx,
 				Event_OnInvalid_Message:                State_SendCancel,
+				Event_ActionFailed:                     State_SendCancel,
 			},
+			// The negotiation timeout does not survive a restart: cancel
+			// the swap (and tell the peer) instead of waiting forever.
+			FailOnrecover: true,
 		},
 		State_SwapInSender_BroadcastOpeningTx: {
 			Action: &CheckPremiumAmount{next: &CreateAndBroadcastOpeningTransaction{}},
